@@ -130,6 +130,7 @@ retry_fetch_lv:
         LOG(ERROR) << log_location_prefix << "unexpected process.";
     }
     traverse_key_view.remove_prefix(sizeof(key_slice_type));
+    YAKUSHIMA_VERIF_HOOK(YAKUSHIMA_VERIF_LAYER, nullptr);
     goto retry_find_border; // NOLINT
 }
 
